@@ -317,10 +317,25 @@ func Go(f func()) {
 }
 
 func (s *Sim) GoLabel(label string, f func()) {
+	if s.draining.Load() {
+		// The run is over and being torn down: nothing new is started. Whoever waits for
+		// this goroutine stays blocked; the bubble is then abandoned and the worker retires.
+		// (Starting it could recurse forever without ever parking, e.g. over cached pages.)
+		s.Probe("spawn_dropped_while_draining")
+		return
+	}
 	parent := s.G()
 	s.mu.Lock()
 	if label == "" {
-		label = parent.Label + "/" + strconv.Itoa(parent.spawns)
+		pl := parent.Label
+		if len(pl) > 120 {
+			// deep spawn chains: fold the prefix into a hash so that labels (and every key and
+			// log line built from them) stay short; still a pure function of the spawn path
+			h := fnv.New64a()
+			h.Write([]byte(pl))
+			pl = "~" + strconv.FormatUint(h.Sum64(), 36)
+		}
+		label = pl + "/" + strconv.Itoa(parent.spawns)
 		parent.spawns++
 	}
 	s.mu.Unlock()
